@@ -191,7 +191,7 @@ def relative_session(ctx, rep, seed):
 
 def run(ctx, rep, model=True):
     relative_session(ctx, rep, ctx.rng.randrange(1 << 30))
-    n = 20 if ctx.quick else 120
+    n = 16 if ctx.quick else 120
     for i in range(n):
         spec = plotgen.random_spec(ctx.rng, ndims=[3, 2][i % 2], nf=[3, 4, 2, 5, 1][i % 5], data=["bits", "tags"][i % 3 == 2],
                                    B=2, layout=["scatter", "perm", "files", "scatter"][i % 4], repeats=(i % 7 == 6))
